@@ -40,6 +40,8 @@ def run(chk):
             rnd = mem.random_scripts(chk.rng, 2000, 250, "arr", na=6)
         vlib.run_scripts(chk, mem, c_exe, m_exe, rnd, mem.oracle)
         base.search_near(chk, c_exe, m_exe)
+    from areas import mem_tie
+    mem_tie.tie_run(chk)
     return chk.finish()
 
 
